@@ -115,7 +115,7 @@ def run(facts, rep, tier):
     import roles
     # the exclusion every lock-based argument below relies on: rwp::Resource itself (the rule set of C01)
     import resource as _res
-    _res.emit(facts, rep, 'C15', ['RES.1', 'RES.2a', 'RES.3', 'RES.4', 'RES.5', 'RES.6', 'RES.8x', 'RES.9', 'RES.11', 'RES.13', 'RES.15a'],
+    _res.emit(facts, rep, 'C15', ['RES.1', 'RES.2a', 'RES.3', 'RES.4', 'RES.5', 'RES.6', 'RES.8x', 'RES.9', 'RES.11', 'RES.13', 'RES.15a', 'RES.16'],
               {'RES.1': 5, 'RES.2a': 3, 'RES.3': 8, 'RES.4': 4, 'RES.5': 6, 'RES.6': 4, 'RES.8x': 8, 'RES.9': 1, 'RES.11': 8, 'RES.13': 8, 'RES.15a': 2})
     facts = roles.subject_canonical(facts, rep)
     lf_ = common.router_lock_field(facts)
